@@ -560,6 +560,60 @@ func c03AcceptCheckKey(rep *Report, fixedKey string, src []byte, o int, want str
 	rep.Eval(fmt.Sprintf("%s:%q/%d", bucket, src, o), nontrivial, bucket)
 }
 
+// c03FixedPrograms: programs whose tree was worked out by hand from the grammar (regular expressions vs division,
+// restricted productions, new / call / member nesting, optional chains, tagged templates, arrow bodies, labels, do-while ASI)
+var c03FixedPrograms = [][2]string{
+	{"x = /ab+c/gi;", "Stmt(x=/ab+c/gi)"},
+	{"x = /[/]/.test(s)", "Stmt(x=((/[/]/.test)(s)))"},
+	{"if (a) /re/.test(b)", "Stmt(if a Stmt((/re/.test)(b)))"},
+	{"a\n/re/g", "Stmt((a/re)/g)"},
+	{"x = y++ / 2", "Stmt(x=((y++)/2))"},
+	{"x = y\n/2/g", "Stmt(x=((y/2)/g))"},
+	{"async\nfunction f(){}", "Stmt(async) Decl(function f Params() Stmt({ }))"},
+	{"let\nx = 1", "Decl(let Binding(x = 1))"},
+	{"function* g(){ yield\na }", "Decl(function* g Params() Stmt({ Stmt(yield) Stmt(a) }))"},
+	{"function f(){ return\na }", "Decl(function f Params() Stmt({ Stmt(return) Stmt(a) }))"},
+	{"x = a\n(b)", "Stmt(x=(a(b)))"},
+	{"new a.b.c", "Stmt(new ((a.b).c))"},
+	{"new a().b", "Stmt((new a).b)"},
+	{"new (a())()", "Stmt(new ((a())))"},
+	{"new a()()", "Stmt((new a)())"},
+	{"new new a", "Stmt(new (new a))"},
+	{"new a(b)(c)", "Stmt((new a(b))(c))"},
+	{"a?.b.c(d)[e]", "Stmt((((a?.b).c)(d))[e])"},
+	{"a?.[0]?.(1)", "Stmt((a?.[0])?.(1))"},
+	{"!a in b", "Stmt((!a) in b)"},
+	{"typeof a.b", "Stmt(typeof (a.b))"},
+	{"1..toString()", "Stmt((1..toString)())"},
+	{"0x1.a", "Stmt(0x1.a)"},
+	{"a\n++\nb", "Stmt(a) Stmt(++b)"},
+	{"a = b\n++c", "Stmt(a=b) Stmt(++c)"},
+	{"x = a ? b : c ? d : e", "Stmt(x=(a ? b : (c ? d : e)))"},
+	{"({}).x", "Stmt(({}).x)"},
+	{"({a} = b)", "Stmt(({a}=b))"},
+	{"a ** b ** c", "Stmt(a**(b**c))"},
+	{"a ? b : c, d", "Stmt((a ? b : c),d)"},
+	{"x => y => z", "Stmt(Params(Binding(x)) => Stmt({ Stmt(return (Params(Binding(y)) => Stmt({ Stmt(return z) }))) }))"},
+	{"(x) => (y) => ({z})", "Stmt(Params(Binding(x)) => Stmt({ Stmt(return (Params(Binding(y)) => Stmt({ Stmt(return ({z})) }))) }))"},
+	{"async x => await x", "Stmt(async Params(Binding(x)) => Stmt({ Stmt(return (await x)) }))"},
+	{"label: for(;;) continue label", "Stmt(label : Stmt(for ; ; Stmt({ Stmt(continue label) })))"},
+	{"if (a) b; else if (c) d; else e", "Stmt(if a Stmt(b) else Stmt(if c Stmt(d) else Stmt(e)))"},
+	{"do a; while (b) c", "Stmt(do Stmt(a) while b) Stmt(c)"},
+	{"x = function f() {}()", "Stmt(x=(Decl(function f Params() Stmt({ }))()))"},
+	{"(function(){}())", "Stmt((Decl(function Params() Stmt({ }))()))"},
+	{"!function(){}()", "Stmt(!(Decl(function Params() Stmt({ }))()))"},
+	{"x = class A extends (B, C) {}", "Stmt(x=Decl(class A extends ((B,C))))"},
+	{"x = a\n`t`", "Stmt(x=a`t`)"},
+	{"x = a`t`.b`u`", "Stmt(x=(a`t`.b)`u`)"},
+	{"`a${b}c${`d${e}f`}g`", "Stmt(`a${b}c${`d${e}f`}g`)"},
+	{"for (var i = 0, j = 1; i < j; i++, j--) ;", "Stmt(for Decl(var Binding(i = 0) Binding(j = 1)) ; (i<j) ; ((i++),(j--)) Stmt({ }))"},
+	{"for (x = a ? b in c : d;;);", "Stmt(for (x=(a ? (b in c) : d)) ; ; Stmt({ }))"},
+	{"for (var x = (a in b);;);", "Stmt(for Decl(var Binding(x = ((a in b)))) ; ; Stmt({ }))"},
+	{"switch (a) { case 1: case 2: b; default: }", "Stmt(switch a Clause(case 1) Clause(case 2 Stmt(b)) Clause(default))"},
+	{"throw a, b", "Stmt(throw (a,b))"},
+	{"get = set", "Stmt(get=set)"},
+}
+
 // c03Fixed: the minimal instances of the known deviations and of the listed rejections, first, so that the
 // replay of a finding is the shortest program that shows it.
 func c03Fixed(rep *Report) {
@@ -581,6 +635,12 @@ func c03Fixed(rep *Report) {
 		c03AcceptCheck(rep, []byte("a<<b+c"), o, "Stmt(a<<(b+c))", false, "fixed", true)
 		c03AcceptCheck(rep, []byte("(a??b)||c"), o, "Stmt(((a??b))||c)", false, "fixed", true)
 		c03AcceptCheck(rep, []byte("(-a)**b"), o, "Stmt(((-a))**b)", false, "fixed", true)
+	}
+	for _, p := range c03FixedPrograms {
+		src := strings.ReplaceAll(p[0], "\\n", "\n")
+		for o := 0; o < 4; o++ {
+			c03AcceptCheck(rep, []byte(src), o, p[1], false, "fixed-programs", true)
+		}
 	}
 	rejectCheckFixed := func(kind, s string) { c03RejectCheck(rep, kind, []byte(s)) }
 	rejectCheckFixed("var-then-let-in-block", "{var a;let a}")
